@@ -17,6 +17,14 @@ def seeded_rows(suffix):
         rows.append(f"| {name} | {need} | {m['check_result']['caught_by']} | {note} |")
     return rows
 
+def put(d, marker, suffix):
+    rows = ["| seeded change | needs to manifest | caught by (final) | first version of the check |", "|---|---|---|---|"] + seeded_rows(suffix)
+    block = f"<!-- {marker}:begin -->\n" + "\n".join(rows) + f"\n<!-- {marker}:end -->"
+    if f"<!-- {marker}:begin -->" not in d:
+        print("marker", marker, "missing"); return d
+    return re.sub(rf"<!-- {marker}:begin -->.*?<!-- {marker}:end -->", lambda _: block, d, flags=re.S)
+
+d = put(d, "seeded3", "c")
 t2 = ["| seeded change | needs to manifest | caught by (final) | first version of the check |", "|---|---|---|---|"] + seeded_rows("b")
 block = "<!-- seeded2:begin -->\n" + "\n".join(t2) + "\n<!-- seeded2:end -->"
 if "<!-- seeded2:begin -->" in d:
